@@ -14,7 +14,7 @@ RULE = (
     "configurations: schedule shapes S1 (two sequential tasks), S2 (parallel then task), S3 (parallel completed-by a task with an endless "
     "sibling, then a task), S4 (completed-by any), S5a/S5b (over-committed parallel with / without completed-by), S6 (time-period task), S7 "
     "(unequal client counts, idle clients), S8 (completed-by task on the last of three clients, two clients per worker), S5c (second wave of "
-    "a completed-by element on a worker that does not host the completing task), S3x2 (two completed-by elements in a row), S4x2 (two completed-by-any elements in a row), S14 (the completed-by task itself has two clients), S5d (three rows per client below a completed-by element) x layouts {1 host x 1 core, 1x2, 2 hosts x 1, 1x3} x service-time profiles {uniform, client-skewed, "
+    "a completed-by element on a worker that does not host the completing task), S3x2 (two completed-by elements in a row), S4x2 (two completed-by-any elements in a row), S14 (the completed-by task itself has two clients), S18 (a completed-by-any element that leaves a worker without a task), S5d (three rows per client below a completed-by element) x layouts {1 host x 1 core, 1x2, 2 hosts x 1, 1x3} x service-time profiles {uniform, client-skewed, "
     "task-skewed} x clock offsets {0, +1000 s on the second host}; schedules: every sequence of transitions (deliver head of a "
     "sender/receiver channel | resume an executor thread | deliver a due wake-up | advance time, i.e. delay everything pending | run the "
     "executor thread at a sync point inside a handler) within the deviation bound. non-trivial = execution with at least one deviation; "
@@ -68,6 +68,9 @@ def shapes():
         "S4x2": lambda: [P([T("a", 1, it=2, any_=True), T("b", 1, it=400, any_=True)]), P([T("c", 1, it=2, any_=True), T("d", 1, it=400, any_=True)]), T("e", 1, it=2)],
         # the completing task itself is run by two clients (co-located on one worker in 1x1): the faster one must not end the slower one
         "S14": lambda: [P([T("a", 2, it=3, completes=True), T("b", 1, time_period=ENDLESS)]), T("c", 2, it=1)],
+        # a completed-by-any element that needs fewer clients than the element before it: a worker without any task in the element reaches the
+        # next join point at once; that is not "a task finished" and must not end the element
+        "S18": lambda: [T("z", 3, it=1), P([T("a", 1, it=2, any_=True), T("b", 1, it=400, any_=True)]), T("c", 1, it=2)],
         # three rows per client below a completed-by element: once the named task is done every remaining row is skipped, not just the next
         "S5d": lambda: [P([T("a", 1, it=2, completes=True), T("b", 1, it=1), T("c", 1, it=1), T("d", 1, time_period=ENDLESS), T("e", 1, it=1),
                            T("f", 1, time_period=ENDLESS)], clients=2), T("g", 2, it=1)],
